@@ -594,7 +594,63 @@ def gen_gis(rng, scale, size):
     return ps
 
 
+def gen_hist(rng, scale, size):
+    """histories: one probe = 20 to 80 calls on one set of objects / buffers (see the `h.*` entries of the worker)"""
+    ps = []
+    for _ in range(scale(12, 60)):
+        n = rng.choice([0, 1, 2, 3, 5, 8, 13, rng.randint(14, size(60, 400))])
+        fc = rng.choice(["fin", "fin", "nan", "inf", "neg", "ties"])
+        kind = rng.choice(["runs", "runs", "strict", "const", "rand"])
+        ps.append(P("h.series", f"len{min(n, 9)}/{kind}/{fc}", x=A(fvals(rng, n, fc)), idx=A(index_vals(rng, n, kind), "int64"),
+                    k=rng.randint(0, max(n, 1)), operator=rng.randint(0, 3), maxnan=rng.choice([0, 1, -1])))
+        m = rng.choice([0, 1, 2, 3, 5, 8, rng.randint(9, size(40, 300))])
+        secs, cur = [], rng.choice([0, 3599, 1700000000])
+        for i in range(m):
+            secs.append(cur)
+            cur += rng.choice([rng.randint(1, 7000), 600, rng.randint(3000, 20000)])
+        ps.append(P("h.var2h", f"len{min(m, 9)}", secs=secs, values=A(fvals(rng, m, rng.choice(["fin", "nan", "neg"])))))
+        nn, mm = rng.choice([0, 1, 2, 3, 5, 8]), rng.choice([0, 1, 2, 3, 5])
+        ps.append(P("h.stat", f"n{min(nn, 9)}/m{min(mm, 4)}", ens=A(fmat(rng, nn, mm, rng.choice(["fin", "ties", "nan"])), shape=[nn, mm]),
+                    obs=A(fvals(rng, nn, rng.choice(["fin", "fin", "nan"]))),
+                    params=A([enc(rng.uniform(-1, 1)) for _ in range(rng.choice([0, 1, 2, 3, 9, 10]))]),
+                    u=A([enc(rng.random()) for _ in range(rng.choice([0, 1, 2, 7, 30]))])))
+        y = rng.choice([1999, 2000, 2023, 2024, 1900, I32MAX, I32MAX - 1, 0, -1])
+        ps.append(P("h.dates", "year_edge" if abs(y) > 10 ** 6 else "year", date=A([y, rng.randint(1, 12), rng.randint(1, 31)], "int32"),
+                    date2=A([rng.choice([1999, 2024, y]), rng.randint(1, 12), rng.randint(1, 28)], "int32"),
+                    ndays=rng.randint(1, 70), nmonths=rng.randint(1, 30),
+                    days=[rng.choice([20240131.0, 19000229.0, "nan", 1e300, 99991231.0, 20231231.0, 0.0])
+                          for _ in range(rng.randint(0, 4))]))
+    for _ in range(scale(12, 60)):
+        g, gk = geom(rng, rng.choice(["small", "small", "offset", "row", "col", "one"]))
+        n = rng.choice([0, 1, 2, 3, 5, 8, rng.randint(9, size(30, 200))])
+        ps.append(P("h.grid", f"len{min(n, 9)}/{gk}", g=dict(g, data=None), xy=A(coords(rng, g, n, rng.choice(["inside", "around", "edge", "mixed"])), shape=[n, 2]),
+                    badcell=rng.choice([10 ** 9, -1, I64MAX, g["nrows"] * g["ncols"]]), ncols2=rng.choice([0, 1, 100, g["ncols"] + 1]),
+                    csz2=rng.choice([0.0, "nan", -1.0, 1e-300, 2.0])))
+        fd, fk = flowdir(rng, maxdim=size(6, 10))
+        ntot = fd["nrows"] * fd["ncols"]
+        g2, _ = cover(rng, fd)
+        k = rng.choice([1, 2, 3, 5])
+        gg = dict(fd, csz=1.0, xll=0.0, yll=0.0)
+        ps.append(P("h.catchment", f"{fk}", fd=fd, g=g2, xy=A(coords(rng, gg, k, "around"), shape=[k, 2]),
+                    outlet1=rng.randrange(ntot), outlet2=rng.randrange(ntot),
+                    inlets=rng.choice([None, [rng.randrange(ntot)]]),
+                    badcell=rng.choice([-3, ntot, ntot + 7, 2 ** 40, -1]), badcode=rng.choice([999, 3, -1, 0]),
+                    ncols2=rng.choice([0, 1, fd["ncols"] + 2, 1000]), nvals=[0, 1, 2, 3, ntot, ntot + 1]))
+        fcl = rng.choice(["fin", "nan", "huge", "neg"])
+        mk = lambda: [fvals(rng, fd["ncols"], fcl) for _ in range(fd["nrows"])]      # noqa
+        ps.append(P("h.fields", f"{fk}/{fcl}", fd=fd, field={"nrows": fd["nrows"], "ncols": fd["ncols"], "data": mk()},
+                    alt={"nrows": fd["nrows"], "ncols": fd["ncols"], "data": mk()},
+                    alt2={"nrows": fd["nrows"] + 1, "ncols": fd["ncols"], "data": None},
+                    nprint=rng.choice([0, 0, 1, -1]), badcode=rng.choice([5, 999, -1]), nrows2=rng.choice([0, 1, fd["nrows"] + 3])))
+        n = rng.choice([0, 1, 2, 3, 5, 8, 20])
+        kv = rng.choice([1, 2, 3, 4, 6])
+        gp = {"nrows": 4, "ncols": 4, "csz": 1.0, "xll": 0.0, "yll": 0.0}
+        ps.append(P("h.polygon", f"n{min(n, 9)}/k{min(kv, 4)}", points=A(coords(rng, gp, n, "around"), shape=[n, 2]),
+                    polygon=A(coords(rng, gp, kv, "around"), shape=[kv, 2]), g=gp))
+    return ps
+
+
 def gen_all(rng, scale, size=None):
     """`scale(q, t)` = number of repetitions, `size(q, t)` = largest lengths / grid sides (default: same as scale)"""
     size = size or scale
-    return gen_data(rng, scale, size) + gen_stat(rng, scale, size) + gen_gis(rng, scale, size)
+    return gen_data(rng, scale, size) + gen_stat(rng, scale, size) + gen_gis(rng, scale, size) + gen_hist(rng, scale, size)
